@@ -35,6 +35,7 @@ pub fn eval_check(check: &str, case: &Case, replies: &[String]) -> Result<(), St
                     let k = it.next().unwrap();
                     // ids from 9_000_000_000 stand for a body made of that many statement separators only
                     match k.parse::<u64>() {
+                        Ok(v) if v >= 9_400_000_000 => format!("{} {}\n", n, CASING_BODIES[(v - 9_400_000_000) as usize]),
                         Ok(v) if v >= 9_200_000_000 => format!("{} {}\n", n, ["DATA 0", "DATA -0", "DATA 0, -0", "DATA -0, 0"][(v - 9_200_000_000) as usize]),
                         Ok(v) if v >= 9_000_000_000 => format!("{} {}\n", n, vec![":"; (v - 9_000_000_000) as usize].join(" ")),
                         _ => format!("{} PRINT {}\n", n, k),
@@ -79,6 +80,9 @@ pub fn eval_check(check: &str, case: &Case, replies: &[String]) -> Result<(), St
 
 // ---------------------------------------------------------------------------
 // session oracles
+
+/// line bodies (in their LIST spelling) with letters whose `to_uppercase` has another byte length than the letter
+pub const CASING_BODIES: &[&str] = &["REM \u{131}\u{131} \u{17f} \u{149}", "REM \u{fb01}sh \u{fb06}ats \u{2c65}", "A$ = \"\u{131}\u{131}\"", "A$ = \"\u{149}\u{1f0}\u{250}\u{390}\"", "DATA \"\u{131}\u{17f}\", \"\u{fb02}\"", "REM \u{df}\u{df}\u{df} \u{149}\u{149}"];
 
 fn is_call(op: &str) -> bool {
     op == "cont" || op == "start" || op.starts_with("start ")
@@ -392,6 +396,32 @@ pub fn eval_session_check(check: &str, case: &Case, replies: &[String]) -> Optio
                 }
             }
             res
+        }
+        // no output record of the kind (first letter) anywhere in the range
+        ["range-lacks", r, kind] => {
+            let (a, b) = parse_range(r);
+            match (a..=b.min(case.ops.len() - 1)).find(|&i| case.ops[i] == "take" && replies[i].split(' ').any(|x| x.starts_with(kind))) {
+                None => Ok(()),
+                Some(i) => Err(format!("the output taken at op {} ({}) has a {} record although that kind of record is switched off in this configuration", i, replies[i], kind)),
+            }
+        }
+        ["snap-field-is", i, key, want] => {
+            let i: usize = i.parse().unwrap();
+            let f = snapshot_fields(&replies[i]);
+            if field(&f, key) == *want {
+                Ok(())
+            } else {
+                Err(format!("snapshot at op {}: {} is {} instead of {}", i, key, field(&f, key), want))
+            }
+        }
+        // one of the listed `take`s shows the record
+        ["some-take-is", idxs, rec] => {
+            let found = idxs.split(',').filter_map(|x| x.parse::<usize>().ok()).any(|i| i < replies.len() && replies[i].split(' ').any(|r| r == *rec));
+            if found {
+                Ok(())
+            } else {
+                Err(format!("none of the outputs taken at ops {} shows the record {} (they are: {})", idxs, rec, idxs.split(',').filter_map(|x| x.parse::<usize>().ok()).filter(|i| *i < replies.len()).map(|i| replies[i].clone()).collect::<Vec<_>>().join(" / ")))
+            }
         }
         ["take-has", i, rec] => {
             let i: usize = i.parse().unwrap();
